@@ -793,7 +793,174 @@ def c20(prop, tier):
         shutil.rmtree(work, ignore_errors=True)
 
 
+def c05(prop, tier):
+    """Work (executed basic blocks, coverage counters) against haystack length on pumped members of the universe."""
+    t0 = time.time()
+    q = tier == "quick"
+    vcov = vlib.build_harness(tags=("novh",), cover=True, name="vh-cover")
+    work = tempfile.mkdtemp(prefix="vC05_")
+    try:
+        machinery, fail_paths, samples = [], [], []
+        jobs = [(fam, c) for fam, c in search_jobs(tier, ["CC", "REV", "G2a", "CAP", "LIT", "DIG", "ANC", "G2u"], False, 0.45)]
+        if q:
+            jobs = [(f, dict(c, NShards=c["NShards"] * 2)) for f, c in jobs]   # half a shard per family is plenty for a quick run
+        states = trans = 0
+        agg = {"patterns": 0, "cases": 0, "calls": 0, "nontrivial": 0}
+
+        def mk(fam, consts, i):
+            def run():
+                out = os.path.join(work, f"tlc_{i}.out")
+                r = vlib.run_tlc("MC_Search", consts, SEARCH_CFG, out, workers=2, timeout=3000)
+                if r.error or r.violation:
+                    return (r, [])
+                outs = []
+                nparts = 2
+                procs = []
+                for part in range(nparts):
+                    rp, fp = os.path.join(work, f"rep_{i}_{part}.json"), os.path.join(work, f"fail_{i}_{part}.ndjson")
+                    procs.append((subprocess.Popen([vcov, "work", "-in", out, "-report", rp, "-fail", fp, "-part", str(part), "-parts", str(nparts),
+                                                    "-maxn", "4096" if q else "16384"], stdout=subprocess.PIPE, stderr=subprocess.PIPE, text=True), rp, fp))
+                for pr, rp, fp in procs:
+                    try:
+                        _, err = pr.communicate(timeout=3000)
+                    except subprocess.TimeoutExpired:
+                        pr.kill()
+                        r.error = "work measurement timed out"
+                        continue
+                    if pr.returncode != 0:
+                        r.error = f"work exit {pr.returncode}: {err[-400:]}"
+                    else:
+                        outs.append((rp, fp))
+                os.remove(out)
+                return (r, outs)
+            return run
+        results = vlib.run_parallel([mk(f, c, i) for i, (f, c) in enumerate(jobs)], 8)
+        for r, outs in results:
+            if r.error or r.violation:
+                machinery.append(f"C05 job: {(r.error or r.violation)[:400]}")
+            states += r.distinct
+            trans += r.generated
+            for rp, fp in outs:
+                rep = vlib.read_report(rp)
+                for k in agg:
+                    agg[k] += rep.get(k, 0)
+                samples += (rep.get("samples") or [])[:1]
+                fail_paths.append(fp)
+        kf, known_hit, violations, total = vlib.classify(fail_paths, prop)
+        coverage = {"evaluations": agg["calls"], "distinct_nontrivial": agg["nontrivial"],
+                    "rule": "TLC enumerates pattern-family shards; per pattern up to 3 haystacks of its record are split u.v.w four ways and pumped to "
+                            "u.v^k.w with n = 128..4096 (quick) / 16384 (thorough); work = executed basic blocks of library code (runtime/coverage "
+                            "counters), second of two identical calls, for Match, FindIndex, FindSubmatchIndex; a series is non-trivial/distinct per "
+                            "(pattern, u, v, w, api); superlinear iff log-log slope > 1.35 and the last two doubling ratios > 2.4 and work > 50k blocks; "
+                            "compile work on 8 pattern-text families pumped to 1024 bytes (degree <= 3)",
+                    "samples": samples[:8] or [{"note": "none"}], "states": states, "transitions": trans,
+                    "patterns": agg["patterns"], "pumped_families": agg["cases"], "failing_calls_total": total,
+                    "tlc_jobs": [{"family": f, **c} for f, c in jobs], "exhaustive": False}
+        return vlib.finish(prop, tier, "exploration", coverage, known_hit, violations, t0, kf,
+                           assumptions=["executed basic blocks of Go code are the proxy for time; loops inside assembly kernels are not counted (they are single-pass by construction; re-invocations are counted per call)",
+                                        "the verdict is a measured growth rate on pumped inputs up to the stated length, not a proof"],
+                           machinery=machinery)
+    finally:
+        keep = os.environ.get("VERIF_KEEP")
+        if keep:
+            os.makedirs(keep, exist_ok=True)
+            for f in os.listdir(work):
+                if f.startswith("fail_"):
+                    shutil.copy(os.path.join(work, f), os.path.join(keep, f"{prop}_{f}"))
+        shutil.rmtree(work, ignore_errors=True)
+
+
+def masked_replay_check(prop, tier, jobs, subcmd, sub_args, rule, level="model_checking", teeth=None, assumptions=None, workers=6):
+    """Common plan of C16 / C18: TLC generator jobs -> one harness run over all outputs, repeated under CPU-feature masks."""
+    t0 = time.time()
+    vh = vlib.build_harness()
+    work = tempfile.mkdtemp(prefix=f"v{prop}_")
+    try:
+        machinery, fail_paths, samples, info = [], [], [], {}
+        states = trans = 0
+
+        def mk(name, module, consts):
+            def run():
+                out = os.path.join(work, f"{name}.out")
+                return name, out, vlib.run_tlc(module, consts, SEARCH_CFG, out, workers=workers, timeout=3000, heap="6g")
+            return run
+        outs = []
+        for name, out, r in vlib.run_parallel([mk(n, m, c) for n, m, c in jobs], 3):
+            if r.error or r.violation:
+                machinery.append(f"{name}: {(r.error or r.violation)[:500]}")
+                continue
+            states += r.distinct
+            trans += r.generated
+            outs.append(out)
+            info[f"tlc_{name}"] = {"distinct_states": r.distinct, "wall_s": round(r.wall, 1)}
+        for name, module, consts, expect in (teeth or []):
+            out = os.path.join(work, f"teeth_{name}.out")
+            r = vlib.run_tlc(module, consts, SEARCH_CFG, out, workers=2, timeout=600)
+            ok = bool(r.error and expect in open(out, errors="replace").read())
+            info[f"negative_control_{name}"] = "rejected by TLC as expected" if ok else "NOT rejected"
+            if not ok:
+                machinery.append(f"negative control {name}: TLC did not reject the deliberately broken model")
+        agg = {"patterns": 0, "cases": 0, "calls": 0, "nontrivial": 0, "spec_gaps": 0}
+        if outs:
+            for mname, godebug in [("plain", "")] + CPU_MASKS:
+                rp, fp = os.path.join(work, f"rep_{mname}.json"), os.path.join(work, f"fail_{mname}.ndjson")
+                env = dict(os.environ)
+                if godebug:
+                    env["GODEBUG"] = godebug
+                else:
+                    env.pop("GODEBUG", None)
+                p = subprocess.run([vh, subcmd, "-in", ",".join(outs), "-report", rp, "-fail", fp] + sub_args, capture_output=True, text=True,
+                                   timeout=3000, env=env)
+                if p.returncode != 0:
+                    machinery.append(f"{subcmd} [{mname}] exit {p.returncode}: {p.stderr[-500:]}")
+                    continue
+                rep = vlib.read_report(rp)
+                for k in agg:
+                    agg[k] += rep.get(k, 0)
+                samples += (rep.get("samples") or [])[:2]
+                machinery += rep.get("machinery_errors") or []
+                ex = rep.get("extra") or {}
+                info[f"replay_{mname}"] = {k: ex[k] for k in ex if k in ("dispatch_observed", "faults", "guard_selftest", "godebug", "implementations",
+                                                                              "calls_checked_against_tla_and_naive", "records_by_width")}
+                info[f"replay_{mname}"]["calls"] = rep.get("calls")
+                fail_paths.append(fp)
+        kf, known_hit, violations, total = vlib.classify(fail_paths, prop)
+        coverage = {"states": states, "transitions": trans, "traces_validated_against_impl": agg["cases"], "samples": samples[:6] or [{"note": "none"}],
+                    "evaluations": agg["calls"], "distinct_nontrivial": agg["nontrivial"], "rule": rule, "records_replayed": agg["patterns"],
+                    "spec_gaps": agg["spec_gaps"], "stages": info, "failing_calls_total": total, "exhaustive": not machinery}
+        return vlib.finish(prop, tier, level, coverage, known_hit, violations, t0, kf, assumptions=assumptions, machinery=machinery)
+    finally:
+        keep = os.environ.get("VERIF_KEEP")
+        if keep:
+            os.makedirs(keep, exist_ok=True)
+            for f in os.listdir(work):
+                if f.startswith("fail_"):
+                    shutil.copy(os.path.join(work, f), os.path.join(keep, f"{prop}_{f}"))
+        shutil.rmtree(work, ignore_errors=True)
+
+
+def c18(prop, tier):
+    q = tier == "quick"
+    s = vlib.seed()
+    tm = {"scalar", "overlap"}
+    jobs = [("w2", "MC_Simd", {"W": 2, "MaxHits": 2 if q else 3, "TailModes": tm, "Shard": s % 4 if q else 0, "NShards": 4 if q else 1})]
+    jobs += [(f"w4_{k}", "MC_Simd", {"W": 4, "MaxHits": 2, "TailModes": tm, "Shard": k, "NShards": 32 if q else 8}) for k in ([s % 32] if q else range(8))]
+    teeth = [("overread", "MC_Simd", {"W": 2, "MaxHits": 2, "TailModes": {"overread"}, "Shard": 0, "NShards": 1}, "reads outside the slice"),
+             ("short", "MC_Simd", {"W": 2, "MaxHits": 2, "TailModes": {"short"}, "Shard": 0, "NShards": 1}, "BlockScan # scalar")]
+    return masked_replay_check(prop, tier, jobs, "simd", ["-exh", "97" if q else "193"], teeth=teeth,
+                               rule="TLC checks the block-scan model (BlockScan/CountScan/PairScan = scalar definition and reads inside the slice for W in "
+                                    "{2,4}, all lengths 0..3W+1, all alignments, <= 2-3 special cells; candidate/verify = Memmem) and prints the scalar "
+                                    "value of all 14 primitives on every abstract haystack under 14 byte palettes; each record is replayed unstretched and "
+                                    "stretched to widths 16/32/64 on guard-page placements (three-way with a naive loop), plus every length 0..97/193 x "
+                                    "every hit position x all 64 alignments; the whole replay runs plain and under GODEBUG=cpu.avx2=off[,cpu.ssse3=off]; "
+                                    "non-trivial = calls whose reference value is a hit",
+                               assumptions=["memory safety is observed through PROT_NONE guard pages and bait bytes, not proved",
+                                            "TLC evaluates the scalar definitions correctly (cross-checked with a naive Go loop on every call)"])
+
+
 REGISTRY = {
+    "C18": c18,
+    "C05": c05,
     "C20": c20,
     "C06": c06,
     "C15": c15,
